@@ -10,6 +10,7 @@ package main
 // the package variable and the two results are compared.
 //
 // Streams (field "note" of a case): roundtrip, wellformed, nearmiss, floats, floats:huge, nonwf.
+// floats:huge is 1e15 < x < 2^63; floats x >= 2^63 are only counted (stats "floats:beyond_int64:*").
 // All randomness derives from Args.Seed; no Go map is iterated to produce output.
 
 import (
@@ -1967,6 +1968,33 @@ func (s *unitsSink) floatCase(u *hx.Units, x float64, long bool, huge bool) {
 			return unitsRes{R: "ok", S: d.FormatLongFloat(x)}
 		}
 		return unitsRes{R: "ok", S: d.FormatShortFloat(x)}
+	}
+	if x >= 9223372036854775808 {
+		// beyond int64: outside the 64-bit domain of C16 (the formatter's base*multiplier wraps, the
+		// parser rejects products beyond int64 by design). No model case and no finding, unless a
+		// WRONG NUMBER comes back without an error.
+		const k = "floats:beyond_int64:"
+		s.stats[k+"values:"+form]++
+		fr := unitsGuard(func() unitsRes { return call(u.Build()) })
+		if fr.R != "ok" {
+			s.stats[k+"format_panic"]++
+			return
+		}
+		pcall := unitsParseFloatCall(fr.S)
+		pr := unitsGuard(func() unitsRes { return pcall(u.Build()) })
+		switch {
+		case pr.R == "panic":
+			s.stats[k+"parse_panic"]++
+		case pr.R != "ok":
+			s.stats[k+"parse_error"]++
+		case math.Abs(pr.F-x) <= 1e-9*math.Abs(x)+5.1e-7:
+			s.stats[k+"roundtrip_ok"]++
+		default:
+			s.stats[k+"wrong_number"]++
+			s.finding("float beyond int64 parsed to a wrong number", nil, u, input, "form "+form, "bits "+unitsBits(x),
+				"formatted "+strconv.Quote(fr.S), "got "+pr.show("UNITS_PARSEF"), "want "+input+" within 1e-9 relative + 5.1e-7, or an error")
+		}
+		return
 	}
 	fr := unitsGuard(func() unitsRes { return call(u.Build()) })
 	s.stats[note+":values:"+form]++
